@@ -35,13 +35,13 @@ def _jobs(tier):
         for pol in pols:
             for h in short:
                 deep[(hn, H.hist_name(h), pol, "SIM", "G1")] = dict(spec=sp, user=h, policy=pol, clock="SIM", rtf=0)
-    for hn in ("L1.16-16", "L2"):
+    for hn in (("L1.16-16",) if tier == "quick" else ("L1.16-16", "L2")):
         for pol in pols:
             for h in short[:5]:
                 deep[(hn, H.hist_name(h), pol, "WALL", "G1")] = dict(spec=core[hn], user=h, policy=pol, clock="WALL")
     # second episodes under preemption (stale state that survives a reset / re-arming in the wrong lifecycle call)
     two_deep = [[["reset"], ["step"], ["stop"], ["reset"], ["step"], ["stop"]], [["run"], ["stop"], ["run"], ["stop"]], [["reset"], ["step"], ["reset"], ["step"], ["stop"]]]
-    for hn in ("L1.16-8", "L2") if tier == "quick" else list(core):
+    for hn in ("L2",) if tier == "quick" else list(core):
         for pol in pols:
             for h in two_deep:
                 deep[(hn, H.hist_name(h), pol, "SIM", "G1")] = dict(spec=core[hn], user=h, policy=pol, clock="SIM", rtf=0)
@@ -49,8 +49,10 @@ def _jobs(tier):
     # no free-running source): stop()/reset() must also work against idle workers
     idle_h = [[["reset"], ["idle"], ["stop"], ["reset"], ["stop"]], [["run"], ["idle"], ["stop"], ["run"], ["stop"]], [["reset"], ["step"], ["idle"], ["reset"], ["step"], ["stop"]]]
     for hn, sp in (("L0", more["L0"]), ("L5", more["L5"]), ("L2", core["L2"])):
+        if tier == "quick" and hn == "L2":
+            continue
         for pol in pols:
-            for h in idle_h:
+            for h in (idle_h[:2] if tier == "quick" else idle_h):
                 deep[(hn, H.hist_name(h), pol, "SIM", "G1")] = dict(spec=sp, user=h, policy=pol, clock="SIM", rtf=0)
     if tier == "thorough":
         for hn, sp in more.items():
